@@ -84,6 +84,27 @@ def strIncr (db : DB) (k : Bytes) (d : Int) (now : Int) : Res :=
     | (.error e, d) => .err e d
     | (.ok _, d) => .ok (.int nv) d
 
+/-- `Tx.IncrFloat`: `Get`, `Value.Float` (`strconv.ParseFloat`), float64 addition, `update` with
+`strconv.FormatFloat(v, 'f', -1, 64)`. Decided on the domain of `parseFloatDec`/`formatFloatDec`
+(plain decimal texts denoting dyadic rationals; sums with at most 15 significant digits, which are
+exact in float64 and print as their exact expansion); `outOfDomain` elsewhere. -/
+def strIncrFloat (db : DB) (k : Bytes) (d : Dyadic) (now : Int) : Res :=
+  let cur := (strGetRaw db k now).getD []
+  match valueFloat cur with
+  | .invalid => .err .valueType db
+  | .unknown => .err .outOfDomain db
+  | .val x =>
+    match formatFloatDec (x + d) with
+    | none =>
+      -- the text of the sum is outside the modelled domain; whether the key upsert fails does not depend on it
+      (match strUpdate1 db k now with
+       | .error e => .err e db
+       | .ok _ => .err .outOfDomain db)
+    | some txt =>
+      match strUpdateTx db k txt now with
+      | (.error e, d') => .err e d'
+      | (.ok _, d') => .ok (.score (.fin (x + d))) d'
+
 /-- items are applied in the given order (Go iterates the map in an unspecified order; the
 driver tries every order) -/
 def strSetMany (db : DB) (items : List (Bytes × Bytes)) (now : Int) : Res :=
